@@ -47,6 +47,18 @@ CHECKS = {
         note=TRUST + "translator is trusted (fail-closed); external callees (call_lua_sandbox, call_parser_function, hooks) "
              "assumed balanced in the proof and exercised dynamically; exceptions escaping expand() are outside the property.",
         ref="DESIGN.md section 4 C16"),
+    "C18": dict(
+        technique="Coq proofs (pad/sub/plural specs; ladder regenerated from parserfns.py equals the documented one) + value correspondence against Coq reference models",
+        text="Theorems: c18_ladder_is_documented (the #expr precedence ladder extracted from expr_fn on this run equals the "
+             "documented ladder, all binary levels left-associative), c18_padleft/c18_padright/c18_pad_cyclic (exact result and "
+             "length for all values, counts and pad strings), c18_sub_* and c18_plural_selects_by_one. Every listed string "
+             "function, plural, #expr on integer ASTs (minimal vs full parentheses, random spacing/case, compared with the Coq "
+             "reference evaluator) and formatnum / formatnum|R on every shipped locale are compared with the Coq models and "
+             "with references written from the documentation. PARTIAL: parser correctness of the ladder for all ASTs and the "
+             "formatnum round trip for all numerals are checked by correspondence, not yet proved.",
+        note=TRUST + "translators ladder.py/locales.py trusted (fail-closed); floats, urllib quoting, non-ASCII case mapping "
+             "not modelled; negative operands of mod and inexact division are outside the reference evaluator.",
+        ref="DESIGN.md section 4 C18"),
 }
 
 NOT_YET = "check not built yet in this round (planned, see DESIGN.md section 8)"
